@@ -92,13 +92,18 @@ def rg_part(chk, tier, recs):
             sc.write(d + "e/clean", b"x\nxx\n")
             for naming in ("implicit", "explicit", "mixed"):
                 for mode, fl in (("default", []), ("binary", ["--binary"]), ("text", ["--text"])):
-                    for strat in ("--mmap", "--no-mmap"):
+                    for strat in ("--mmap", "--no-mmap", "--mmap-U"):
                         for ctx in ([], ["-C1"], ["-c"], ["-l"]):
                             if ctx and mode == "text":
+                                continue
+                            if strat == "--mmap-U" and (ctx or len(b) > 60000 or naming == "mixed"):
                                 continue
                             if ctx in (["-c"], ["-l"]) and (naming == "mixed" or k % 3):
                                 continue
                             args = ["--no-config", "--color", "never", "-j1", "-n", "-I", "--no-heading", strat] + fl + ctx + ["-e", "m"]
+                            if strat == "--mmap-U":
+                                # multi-line strategy: a pattern that selects the same lines but can match the terminator
+                                args = ["--no-config", "--color", "never", "-j1", "-n", "-I", "--no-heading", "--mmap", "-U"] + fl + ctx + ["-e", "m[^\\n]*\\n?"]
                             if naming == "explicit":
                                 args += [sc.path(d, "f")]
                             elif naming == "mixed":
@@ -154,8 +159,50 @@ def rg_part(chk, tier, recs):
                 chk.validated += 1
                 if any(l["nul"] for l in r["lines"]) and r["out"]:
                     chk.nontrivial_case("rg:%d:%s:%s:%s" % (k, naming, mode, strat))
+        sequence_part(chk, sc, inputs)
     finally:
         sc.close()
+
+
+def sequence_part(chk, sc, inputs):
+    """Two files searched one after the other by the same worker (-j1, incremental reader): what is printed for a file
+    does not depend on the file searched before it.  Each file on its own is judged by BinaryPolicy above; here the
+    output for the pair must be the two single-file outputs one after the other."""
+    import itertools
+    import rgrun
+    small = [b for b in inputs if len(b) < 4000]
+    pick = [b for b in small if b"\x00" in b and b"m" in b][:4] + [b for b in small if b"\x00" not in b and b"m" in b][:2]
+    if len(pick) < 3:
+        return
+    for k, b in enumerate(pick):
+        sc.write("q/f%d" % k, b)
+    base = ["--no-config", "--color", "never", "-j1", "-n", "-H", "--no-heading", "--no-mmap", "-e", "m"]
+    variants = [("explicit", []), ("explicit", ["-c"]), ("binary", ["--binary"]), ("text", ["--text"])]
+    singles, jobs, meta = {}, [], []
+    for v, fl in variants:
+        for k in range(len(pick)):
+            jobs.append({"args": base + fl + ["f%d" % k], "cwd": sc.path("q")})
+            meta.append(("single", v, tuple(fl), k, None))
+        for a, b2 in itertools.permutations(range(len(pick)), 2):
+            jobs.append({"args": base + fl + ["f%d" % a, "f%d" % b2], "cwd": sc.path("q")})
+            meta.append(("pair", v, tuple(fl), a, b2))
+    outs = rgrun.run_many(jobs)
+    chk.evaluations += len(jobs)
+    for (kind, v, fl, a, b2), (rc, so, se) in zip(meta, outs):
+        if kind == "single":
+            singles[(v, fl, a)] = so
+    for (kind, v, fl, a, b2), (rc, so, se), j in zip(meta, outs, jobs):
+        if kind != "pair":
+            continue
+        want = singles[(v, fl, a)] + singles[(v, fl, b2)]
+        if so == want:
+            chk.validated += 1
+            chk.nontrivial_case("seq:%s:%s:%d:%d" % (v, "".join(fl), a, b2))
+        else:
+            chk.violation({"level": "rg", "naming": "explicit", "mode": v, "strategy": "sequence", "nul_on_stdout": b"\x00" in so, "big": False},
+                          {"why": "the output for two files searched one after the other by one worker is not the two single-file outputs",
+                           "args": j["args"], "got": so[:400].decode("latin1"), "single_file_outputs": want[:400].decode("latin1"),
+                           "first": list(pick[a][:60]), "second": list(pick[b2][:60])})
 
 
 def replay(path):
